@@ -167,3 +167,63 @@ End Pool.
 Arguments PIdle {F}. Arguments PHave {F}. Arguments PUse {F}.
 Arguments ppc_of {F}. Arguments jobs {F}. Arguments reads {F}.
 Arguments pool {F}. Arguments fresh {F}. Arguments obj {F}. Arguments pth {F}.
+
+(* ---- the engines' locks as an instance of the region model ---- *)
+Section EnginesModel.
+Variable rule : Type.                          (* materialised rules *)
+Variable cval : Type.                          (* compiled patterns *)
+Variable content : nat -> nat -> option rule.  (* list id -> byte offset -> what the list holds there *)
+Variable compile : nat -> cval.                (* rule object -> the compilation of its pattern *)
+
+Inductive elk := LCache | LFile (l : nat) | LRule (r : nat).
+Lemma elk_eq_dec (a b : elk) : {a = b} + {a <> b}.
+Proof. decide equality; apply Nat.eq_dec. Defined.
+Inductive ecomp :=
+| CCache (m : nat * nat -> option rule)        (* RuleStorage.cache *)
+| CFile (offset : nat)                         (* the shared file position of a FileRuleList *)
+| CRule (c : option cval).                     (* NetworkRule.regex / invalid *)
+Inductive eout := OUnit | ORule (r : option rule) | OVal (v : cval).
+
+Definition upd2 (m : nat * nat -> option rule) (i : nat * nat) (v : option rule) : nat * nat -> option rule :=
+  fun j => if (Nat.eqb (fst j) (fst i) && Nat.eqb (snd j) (snd i))%bool then v else m j.
+
+Definition cache_read (i : nat * nat) : act ecomp eout :=
+  fun c => (c, match c with CCache m => ORule (m i) | _ => OUnit end).
+Definition cache_write (i : nat * nat) (r : rule) : act ecomp eout :=
+  fun c => (match c with CCache m => CCache (upd2 m i (Some r)) | _ => c end, OUnit).
+Definition file_seek (off : nat) : act ecomp eout := fun _ => (CFile off, OUnit).
+(* reads at the CURRENT shared position: this is the hazard the list mutex removes *)
+Definition file_read (l : nat) : act ecomp eout :=
+  fun c => (c, match c with CFile off => ORule (content l off) | _ => OUnit end).
+Definition rule_prepare (r : nat) : act ecomp eout :=
+  fun c => match c with
+           | CRule (Some v) => (c, OVal v)
+           | CRule None => (CRule (Some (compile r)), OVal (compile r))
+           | _ => (c, OUnit)
+           end.
+
+Notation etask := (task elk ecomp eout).
+Definition T_lookup (i : nat * nat) : etask := {| t_lock := LCache; t_write := false; t_acts := [cache_read i] |}.
+Definition T_load (i : nat * nat) : etask :=
+  {| t_lock := LFile (fst i); t_write := true; t_acts := [file_seek (snd i); file_read (fst i)] |}.
+Definition T_insert (i : nat * nat) (r : rule) : etask :=
+  {| t_lock := LCache; t_write := true; t_acts := [cache_write i r] |}.
+Definition T_prepare (r : nat) : etask := {| t_lock := LRule r; t_write := true; t_acts := [rule_prepare r] |}.
+
+(* what a goroutine may do next, given what it has seen: look up, load, prepare at will; insert only a rule it
+   has itself loaded from that index (RetrieveRule inserts what list.RetrieveRule just returned) *)
+Definition allowed (h : list (etask * list eout)) (tk : etask) : Prop :=
+  (exists i, tk = T_lookup i) \/ (exists i, tk = T_load i) \/ (exists r, tk = T_prepare r) \/
+  (exists i r, tk = T_insert i r /\ In (T_load i, [OUnit; ORule (Some r)]) h).
+
+Definition EGood (k : elk) (c : ecomp) : Prop :=
+  match k, c with
+  | LCache, CCache m => forall i r, m i = Some r -> content (fst i) (snd i) = Some r
+  | LFile _, CFile _ => True
+  | LRule r, CRule c => c = None \/ c = Some (compile r)
+  | _, _ => False
+  end.
+
+End EnginesModel.
+Arguments CCache {rule cval}. Arguments CFile {rule cval}. Arguments CRule {rule cval}.
+Arguments OUnit {rule cval}. Arguments ORule {rule cval}. Arguments OVal {rule cval}.
